@@ -64,10 +64,13 @@ def r201_metricframe(ctx):
     rs = [e for e in r.events if e.kind == "raise" and e.func == r.func]
     for g in gen:
         before = [x for x in rs if x.seq < g.seq]
-        conds = [conj(x.pc) for x in before]
+        conds = [A.C.canon(conj(x.pc)) for x in before]
         nb = P["n_boot"]
-        has_nboot = any(contains(c, lambda s: s.op == "cmp" and s.args[0] == "<" and s.args[1] is nb) for c in conds)
-        has_ci = any(contains(c, lambda s: s.op == "cmp" and s.args[0] in ("<=", ">=") and s.args[1].op == "elem") for c in conds)
+        lt1 = A.C.canon(mk("cmp", "<", nb, const(1)))
+        has_nboot = any(contains(c, lambda s: s is lt1) for c in conds)
+        q = mk("elem", P["ci_quantiles"])
+        le0, ge1 = A.C.canon(mk("cmp", "<=", q, const(0))), A.C.canon(mk("cmp", ">=", q, const(1)))
+        has_ci = any(contains(c, lambda s: s is le0) for c in conds) and any(contains(c, lambda s: s is ge1) for c in conds)
         ctx.ob("R20.1", r.func, g.node, has_nboot and has_ci, "n_boot < 1 and quantiles outside (0,1) raise before any "
                "resampling", construct="bootstrap argument guards")
 
